@@ -148,7 +148,12 @@ pub(crate) static mut NEXT_OP: Option<(ComparisonOp, usize)> = None;
 /// `op`, `Ok((op, input minus that spelling))`; when it starts with no spelling,
 /// `Err((ExpectedName(..), input))`.  The harness fixes which of the two applies and
 /// gives an input that really starts with that spelling.
-pub(crate) fn comparison_op_lex__contract(input: &str) -> LexResult<'_, ComparisonOp> {
+// (`where 'i: 'i` makes the lifetime early-bound, as the impl's `'i` is: Kani compares
+// the number of generic parameters)
+pub(crate) fn comparison_op_lex__contract<'i>(input: &'i str) -> LexResult<'i, ComparisonOp>
+where
+    'i: 'i,
+{
     match unsafe { NEXT_OP } {
         Some((op, len)) => Ok((op, &input[len..])),
         None => Err((LexErrorKind::ExpectedName("ComparisonOp"), input)),
